@@ -115,11 +115,11 @@ def strat(tier):
             st.tuples(st.just('getitem'), u, ki), st.tuples(st.just('getitem'), u, ki),
             st.tuples(st.just('getitem'), u, ki), st.tuples(st.just('getitem'), u, ki),
             st.tuples(st.just('del'), u, ki),
-            st.tuples(st.just('get'), u, ki, st.one_of(st.none(), vi)),
-            st.tuples(st.just('setdefault'), u, ki, st.one_of(st.none(), vi)),
+            st.tuples(st.just('get'), u, ki, st.one_of(st.none(), vi, st.just('same'), st.just('None'))),
+            st.tuples(st.just('setdefault'), u, ki, st.one_of(st.none(), vi, st.just('None'))),
             st.tuples(st.just('update'), u, st.sampled_from(['dict', 'pairs', 'iter', 'kwargs', 'pairs+kw', 'self']), pairs),
             st.tuples(st.just('ior'), u, st.sampled_from(['dict', 'pairs']), pairs),
-            st.tuples(st.just('pop'), u, ki, st.one_of(st.none(), vi)),
+            st.tuples(st.just('pop'), u, ki, st.one_of(st.none(), vi, st.just('same'), st.just('same'), st.just('None'))),
             st.tuples(st.just('popitem'), u),
             st.tuples(st.just('clear'), u),
             st.tuples(st.just('copy'), u),
@@ -139,6 +139,16 @@ def strat(tier):
 
 def K(i):
     return 'k%d' % i
+
+
+def DEFAULT(spec, ref, k):
+    """caller default for get/pop/setdefault: 'same' = the very object currently stored under the key (or None),
+    'None' = None, an int = that small int (identical to stored ints), which exposes 'is default' shortcuts"""
+    if spec == 'same':
+        return ref.od.get(k)
+    if spec == 'None':
+        return None
+    return spec
 
 
 def _mk(form, pairs):
@@ -309,16 +319,18 @@ def run(case):
                 got = _call(c.get, k)
                 exp = ('ok', ref.get(k))
             else:
-                got = _call(c.get, k, ('d', op[3]))
-                exp = ('ok', ref.get(k, ('d', op[3])))
+                d = DEFAULT(op[3], ref, k)
+                got = _call(c.get, k, d)
+                exp = ('ok', ref.get(k, d))
         elif name == 'setdefault':
             k = K(op[2] % nkeys)
             if op[3] is None:
                 got = _call(c.setdefault, k)
                 exp = ('ok', ref.setdefault(k))
             else:
-                got = _call(c.setdefault, k, ('d', op[3]))
-                exp = ('ok', ref.setdefault(k, ('d', op[3])))
+                d = DEFAULT(op[3], ref, k)
+                got = _call(c.setdefault, k, d)
+                exp = ('ok', ref.setdefault(k, d))
         elif name == 'update':
             if op[2] == 'self':
                 got = _call(c.update, c)
@@ -344,8 +356,9 @@ def run(case):
                 got = _call(c.pop, k)
                 exp = ('ok', ref.od.pop(k)) if k in ref.od else ('exc', 'KeyError')
             else:
-                got = _call(c.pop, k, ('d', op[3]))
-                exp = ('ok', ref.od.pop(k)) if k in ref.od else ('ok', ('d', op[3]))
+                d = DEFAULT(op[3], ref, k)
+                got = _call(c.pop, k, d)
+                exp = ('ok', ref.od.pop(k)) if k in ref.od else ('ok', d)
         elif name == 'popitem':
             got = _call(c.popitem)
             if not ref.od:
